@@ -42,6 +42,16 @@ pub fn race_world() -> WorldSpec {
     w.push(Entry::link("outside/landing/b-link", "DECOY-BODY-b-link"));
     w.push(Entry::link("outside/blink", "DECOY-BODY-outside-blink"));
     w.push(Entry::file("outside/secret", "OUTSIDE-SECRET"));
+    // never-inside *symlinks* under the names an escaped walk would look up
+    // next: following (reading) one of them is itself a violation, even if a
+    // later check refuses the final result
+    w.push(Entry::link("outside/etc", "DECOY-BODY-outside-etc"));
+    w.push(Entry::link("outside/file", "DECOY-BODY-outside-file"));
+    w.push(Entry::link("outside/a", "DECOY-BODY-outside-a"));
+    w.push(Entry::link("outside/b", "DECOY-BODY-outside-b"));
+    w.push(Entry::link("outside/landing/b", "DECOY-BODY-landing-b"));
+    w.push(Entry::link("outside/landing/c", "DECOY-BODY-landing-c"));
+    w.push(Entry::link("outside/landing/leaf", "DECOY-BODY-landing-leaf"));
     w
 }
 
